@@ -336,14 +336,14 @@ func (idx *RoaringMetadataIndex) queryNumeric(bsiIndex *bsi.BSI, filter Filter) 
 		if err != nil {
 			return nil, err
 		}
-		return bsiIndex.CompareValue(0, bsi.EQ, value, 0, nil), nil
+		return compareNumeric(bsiIndex, bsi.EQ, value), nil
 
 	case OpNotEqual: // Not equal
 		value, err := toInt64(filter.Value)
 		if err != nil {
 			return nil, err
 		}
-		eq := bsiIndex.CompareValue(0, bsi.EQ, value, 0, nil)
+		eq := compareNumeric(bsiIndex, bsi.EQ, value)
 		result := bsiIndex.GetExistenceBitmap().Clone()
 		result.AndNot(eq)
 		return result, nil
@@ -353,28 +353,28 @@ func (idx *RoaringMetadataIndex) queryNumeric(bsiIndex *bsi.BSI, filter Filter) 
 		if err != nil {
 			return nil, err
 		}
-		return bsiIndex.CompareValue(0, bsi.GT, value, 0, nil), nil
+		return compareNumeric(bsiIndex, bsi.GT, value), nil
 
 	case OpGreaterThanOrEqual: // Greater than or equal
 		value, err := toInt64(filter.Value)
 		if err != nil {
 			return nil, err
 		}
-		return bsiIndex.CompareValue(0, bsi.GE, value, 0, nil), nil
+		return compareNumeric(bsiIndex, bsi.GE, value), nil
 
 	case OpLessThan: // Less than
 		value, err := toInt64(filter.Value)
 		if err != nil {
 			return nil, err
 		}
-		return bsiIndex.CompareValue(0, bsi.LT, value, 0, nil), nil
+		return compareNumeric(bsiIndex, bsi.LT, value), nil
 
 	case OpLessThanOrEqual: // Less than or equal
 		value, err := toInt64(filter.Value)
 		if err != nil {
 			return nil, err
 		}
-		return bsiIndex.CompareValue(0, bsi.LE, value, 0, nil), nil
+		return compareNumeric(bsiIndex, bsi.LE, value), nil
 
 	case OpRange: // Range query [value, value2]
 		minVal, err := toInt64(filter.Value)
@@ -385,11 +385,48 @@ func (idx *RoaringMetadataIndex) queryNumeric(bsiIndex *bsi.BSI, filter Filter) 
 		if err != nil {
 			return nil, err
 		}
-		return bsiIndex.CompareValue(0, bsi.RANGE, minVal, maxVal, nil), nil
+		result := compareNumeric(bsiIndex, bsi.GE, minVal)
+		result.And(compareNumeric(bsiIndex, bsi.LE, maxVal))
+		return result, nil
 
 	default:
 		return nil, fmt.Errorf("unsupported operator for numeric field: %s", filter.Operator)
 	}
+}
+
+// compareNumeric evaluates "stored value <op> operand" (op one of EQ, LT, LE,
+// GT, GE) over the documents of a numeric field.
+//
+// The bit-sliced index compares magnitudes when a stored value and the operand
+// have different signs (e.g. it reports -5 as equal to 5 and not below it), so
+// the comparison is delegated to it only for the documents whose value has the
+// operand's sign; for the other documents the answer follows from the signs
+// alone.
+func compareNumeric(bsiIndex *bsi.BSI, op bsi.Operation, operand int64) *roaring.Bitmap {
+	negatives := bsiIndex.CompareValue(0, bsi.LE, -1, 0, nil)
+	sameSign := bsiIndex.GetExistenceBitmap().Clone()
+	otherSign := negatives
+	if operand < 0 {
+		sameSign.And(negatives)
+		otherSign = bsiIndex.GetExistenceBitmap().Clone()
+		otherSign.AndNot(negatives)
+	} else {
+		sameSign.AndNot(negatives)
+	}
+
+	result := bsiIndex.CompareValue(0, op, operand, 0, sameSign)
+
+	switch op {
+	case bsi.LT, bsi.LE:
+		if operand >= 0 {
+			result.Or(otherSign) // every negative value is below a non-negative operand
+		}
+	case bsi.GT, bsi.GE:
+		if operand < 0 {
+			result.Or(otherSign) // every non-negative value is above a negative operand
+		}
+	}
+	return result
 }
 
 // toInt64 converts various numeric types to int64
